@@ -80,6 +80,88 @@ def lex_families(thorough):
     return fams
 
 
+F21_REJECT_SIDE = set()   # texts that are sentences only when `kw/rest` is read as `kw` `/rest` (known finding F21)
+PROP_PIECES = ['no', 'some', '/x', 'x', ' ', 'as', 'causes', 'or', '(', ')']
+
+
+def prop_readings(g):
+    """Abstract readings of a property-level tokenisation: every keyword may also be a name; a name directly after a
+    token read as the keyword `as` is an alias (A), any other name a channel (t)."""
+    from harness.lex import PROP_KEYWORDS
+    idx = [i for i, (c, s) in enumerate(g) if s in PROP_KEYWORDS]
+    for mask in range(1 << len(idx)):
+        asname = {i for j, i in enumerate(idx) if mask >> j & 1}
+        out = []
+        for i, (c, s) in enumerate(g):
+            if c == 'OP' or (s in PROP_KEYWORDS and i not in asname):
+                out.append(s)
+            else:
+                out.append('A' if (i > 0 and g[i - 1][1] == 'as' and (i - 1) not in asname) else 't')
+        yield tuple(out)
+
+
+def split_keyword_segments(g):
+    """F21: the implementation reads `kw/rest` as the keyword followed by the absolute channel name `/rest`."""
+    import re
+    from harness.lex import PROP_KEYWORDS
+    out, changed = [], False
+    for c, s in g:
+        m = re.match(r'(%s)(/.*)$' % '|'.join(PROP_KEYWORDS), s)
+        if c == 'CHAN' and m:
+            out += [['KW', m.group(1)], ['CHAN', m.group(2)]]
+            changed = True
+        else:
+            out.append([c, s])
+    return out if changed else None
+
+
+def lex_prop_events(rep, thorough, new_ids, byid):
+    """Property level, character by character: 'globally:' followed by every concatenation of a few pieces."""
+    from harness import lex
+    k = 5 if thorough else 4
+    texts, r = lex.enumerate_texts([' '], 0, pieces=PROP_PIECES, maxpieces=k, prop=True, prefix='globally:')
+    rep.add_tlc(r)
+    params = dict(Start=30, MaxTok=2 + k, ScopeKinds=['globally'], PatternKinds=['no', 'some', 'causes'], Channels=['t'], AliasNames=['A'],
+                  DisjLens=[2, 3], PredPool='SmallPool', Times=[], Units=[])
+    sents, r2 = grammar.enumerate_language(params)
+    rep.add_tlc(r2)
+    lang = {tuple(x['toks']): x['ast'] for x in sents}
+    rep.count('lex_prop_texts', len(texts))
+    rep.count('lex_prop_language', len(lang))
+    events = []
+    nacc = nrej = nuns = 0
+    f21 = F21_REJECT_SIDE
+    for text in sorted(texts):
+        info = texts[text]
+        g = info['greedy']
+        if g is not None and not info['adj'] and lex.abstract_prop(g) in lang:
+            try:
+                exp = lex.fill(grammar.fix_var_names(lang[lex.abstract_prop(g)]), g, spelled_value)
+            except lex.FillError as e:
+                raise tlc.MachineryError('cannot put the tokens of %r into the tree of its sentence: %s' % (text, e))
+            kind = 'accept'
+            nacc += 1
+        elif g is not None and any(r in lang for r in prop_readings(g)):
+            nuns += 1
+            continue
+        else:
+            kind, exp = 'reject', {'cls': 'None'}
+            nrej += 1
+            sp = split_keyword_segments(g) if g is not None else None
+            if sp is not None and any(r in lang for r in prop_readings(sp)):
+                f21.add(text)
+        out, obj = call_parser('property', text, 'pkg')
+        eid, sid = new_ids()
+        events.append({'id': eid, 'sid': sid, 'kind': kind, 'entry': 'property', 'expected': exp, 'out': out,
+                       'observed': project(obj, ids=False) if out == 'ast' else {'cls': 'None'}})
+        byid[eid] = (text, 'pkg', [t[1] for t in (g or [])])
+        rep.clause('lex_prop_%s:%s' % (kind, out))
+    rep.count('lex_prop_must_accept', nacc)
+    rep.count('lex_prop_must_reject', nrej)
+    rep.count('lex_prop_unspecified', nuns)
+    return events
+
+
 LEX_KEYWORDS = ['not', 'and', 'or', 'implies', 'iff', 'in', 'forall', 'exists', 'to', 'True', 'False', 'PI', 'INF', 'NAN', 'E']
 
 
@@ -272,6 +354,7 @@ def run(replay=None):
         sid += 1
         return eid, sid
     events.extend(lex_events(rep, thorough, new_ids, byid))
+    events.extend(lex_prop_events(rep, thorough, new_ids, byid))
     # canaries: corrupted recordings that the trace spec must reject
     canaries = []
     for ev in events:
@@ -291,16 +374,19 @@ def run(replay=None):
     rep.cov['canaries_rejected'] = len(canaries)
     for i, clause in split_canaries(res, [c['id'] for c in canaries]):
         text, which, toks = byid[i]
-        rep.violation(signature(clause, toks), '%s on %r (%s parser)' % (clause, text, which),
+        rep.violation(signature(clause, toks, text), '%s on %r (%s parser)' % (clause, text, which),
                       {'text': text, 'clause': clause, 'parser': which})
     for e in events[:: max(1, len(events) // 8)]:
         rep.sample({'text': byid[e['id']][0], 'out': e['out']})
     return rep.finish()
 
 
-def signature(clause, toks):
-    """Known finding F21: the first event of a pattern is a relative channel name whose first segment is `no` / `some`."""
+def signature(clause, toks, text=None):
+    """Known finding F21: the first event of a pattern is a relative channel name whose first segment is `no` / `some`
+    (rejected), or a text that is a property only when `kw/rest` is read as `kw` `/rest` (accepted)."""
     import re
+    if clause == 'MustReject' and text in F21_REJECT_SIDE:
+        return 'MustReject:sentence-only-when-a-keyword-segment-channel-is-cut-after-the-keyword'
     if clause == 'MustAccept' and ':' in toks:
         i = list(toks).index(':')
         if i + 1 < len(toks) and re.match(r'(no|some)/', toks[i + 1]):
